@@ -1,7 +1,7 @@
 (* C15, Gaussian and Eisenstein integers (qint.rs): ring laws of the mirrored multiplication,
    multiplicative norm, rounding division with its remainder bound, units and the quadrant / sextant
    tables of normalizing_unit; packaged as [euc_dict_laws] so that the generic gcd theorems apply. *)
-From Coq Require Import ZArith Lia Bool Psatz.
+From Coq Require Import ZArith Lia Bool.
 Require Import Yui.Base.Ring Yui.Model.Euclid Yui.Proofs.C15Gcd Yui.Proofs.C15Int.
 Local Open Scope Z_scope.
 
